@@ -13,7 +13,7 @@ import (
 	"verifharness/internal/val"
 )
 
-var c20Floor = []string{"set", "get", "get.unset", "get.after-set-same-row", "get.before-set-same-row", "set.overwrite", "set.expr", "set.literal", "where", "prepopulated", "queries.2", "queries.3+", "keys.multi", "table.empty", "dual"}
+var c20Floor = []string{"set", "get", "get.unset", "get.after-set-same-row", "get.before-set-same-row", "set.overwrite", "set.expr", "set.literal", "where", "prepopulated", "queries.2", "queries.3+", "keys.multi", "table.empty", "dual", "prebuilt"}
 
 func init() {
 	fw.Register(&fw.Prop{
@@ -34,6 +34,28 @@ func init() {
 		},
 		Witness: sqlWitness,
 	})
+}
+
+type c20Step struct {
+	sql   string
+	want  []any
+	store map[string]any
+}
+
+// execBuilt executes an already constructed query, catching an escaped panic.
+func execBuilt(q *genql.Query) (out Outcome) {
+	defer func() {
+		if r := recover(); r != nil {
+			out.Panic = r
+		}
+	}()
+	out.Stage = "exec"
+	rows, err := q.Exec()
+	out.Rows, out.Err = rows, err
+	if err != nil {
+		out.Rows = nil
+	}
+	return
 }
 
 type c20Item struct {
@@ -74,8 +96,8 @@ func c20Run(c *fw.Case) {
 	model := val.CopyMap(vars)
 	nq := 1 + c.Intn(4)
 	switch force {
-	case "queries.2":
-		nq = 2
+	case "queries.2", "prebuilt":
+		nq = 2 + c.Intn(2)
 	case "queries.3+":
 		nq = 3 + c.Intn(2)
 	}
@@ -94,6 +116,7 @@ func c20Run(c *fw.Case) {
 	observedWrite := false
 	everSet := map[string]bool{}
 	var history []string
+	var plan []c20Step
 	for qi := 0; qi < nq; qi++ {
 		n := 1 + c.Intn(8)
 		var items []c20Item
@@ -237,7 +260,34 @@ func c20Run(c *fw.Case) {
 			}
 			want = append(want, out)
 		}
-		o := Run(val.CopyMap(doc), sql, genql.WithVars(vars))
+		plan = append(plan, c20Step{sql: sql, want: want, store: val.CopyMap(model)})
+	}
+	// execution: either each query is constructed and executed in turn, or -
+	// 'prebuilt' - every query of the history is constructed first (all given
+	// the same map) and only then executed in order; evaluation order is the
+	// order of the Exec calls either way
+	prebuilt := force == "prebuilt" || (force == "" && len(plan) > 1 && c.Chance(0.3))
+	var built []*genql.Query
+	if prebuilt {
+		feats = append(feats, "prebuilt")
+		for qi, st := range plan {
+			q, err := genql.New(val.CopyMap(doc), st.sql, genql.WithVars(vars))
+			if err != nil {
+				c.Feature(feats...)
+				c.Violate("error", fmt.Sprintf("query %d of the history could not be constructed: %v", qi, err), map[string]any{"history": history, "doc": doc})
+				return
+			}
+			built = append(built, q)
+		}
+	}
+	for qi, st := range plan {
+		want, model := st.want, st.store
+		var o Outcome
+		if prebuilt {
+			o = execBuilt(built[qi])
+		} else {
+			o = Run(val.CopyMap(doc), st.sql, genql.WithVars(vars))
+		}
 		c.Evals(1)
 		det := map[string]any{"history": history, "doc": doc, "expected_rows": val.Show(want), "observed": o.Describe(), "expected_store": val.Show(model), "observed_store": val.Show(vars)}
 		if !o.OK() {
